@@ -300,7 +300,7 @@ Message *Message::factory(const F8MetaCntx& ctx, const f8String& from, bool no_c
 	const BaseMsgEntry *bme(ctx._bme.find_ptr(mtype));
 	if (!bme)
 		throw InvalidMessage(mtype, FILE_LINE);
-	Message *msg(bme->_create._do(false)); // shallow create
+	unique_ptr<Message> msg(bme->_create._do(false)); // shallow create; released to the caller only when decoding succeeded
 #if defined FIX8_CODECTIMING
 	_codec_timings.start(sw_decode_time);
 #endif
@@ -337,7 +337,7 @@ Message *Message::factory(const F8MetaCntx& ctx, const f8String& from, bool no_c
 			throw BadCheckSum(mchkval);
 	}
 
-	return msg;
+	return msg.release();
 }
 
 //-------------------------------------------------------------------------------------------------
